@@ -352,6 +352,14 @@ func (e *Engine) inputSyms(name string, t types.Type, term string) []InputSym {
 
 // frameObligations: everything not named in `modifies` is unchanged for the caller.
 func (e *Engine) frameObligations(f *Frame, c *Contract, entry, rst *State, args []Val, fn *ssa.Function) {
+	for _, g := range e.frameGoals(f, c, entry, rst, fn) {
+		e.obNamed(g[0], "frame", g[1], rst.cond, g[2], fn.Pos())
+	}
+}
+
+// frameGoals: (name, description, goal) triples stating that everything outside `modifies` is unchanged since entry.
+func (e *Engine) frameGoals(f *Frame, c *Contract, entry, rst *State, fn *ssa.Function) [][3]string {
+	var out [][3]string
 	name := e.fname
 	// collect the declared frame
 	var objs, fields, elems, maps []modLoc
@@ -434,7 +442,7 @@ func (e *Engine) frameObligations(f *Frame, c *Contract, entry, rst *State, args
 			body = sOr(alts...)
 		}
 		goal := fmt.Sprintf("(forall ((%s Int)) (=> %s %s))", q, sAnd(excl...), body)
-		e.obNamed(fmt.Sprintf("%s.frame.%s", name, mangle(srt)), "frame", "only objects named in modifies are written (heap of "+srt+")", rst.cond, goal, fn.Pos())
+		out = append(out, [3]string{fmt.Sprintf("%s.frame.%s", name, mangle(srt)), "only objects named in modifies are written (heap of " + srt + ")", goal})
 	}
 	for _, srt := range sortedKeys(rst.heapA) {
 		h1 := rst.heapA[srt]
@@ -455,7 +463,7 @@ func (e *Engine) frameObligations(f *Frame, c *Contract, entry, rst *State, args
 		}
 		goal := fmt.Sprintf("(forall ((%s Int)) (=> %s (= (select %s %s) (select %s %s))))", q, sAnd(excl...), h1, q, h0, q)
 		goal = sAnd(append([]string{goal}, inner...)...)
-		e.obNamed(fmt.Sprintf("%s.frame.elems.%s", name, mangle(srt)), "frame", "only slice elements named in modifies are written (arrays of "+srt+")", rst.cond, goal, fn.Pos())
+		out = append(out, [3]string{fmt.Sprintf("%s.frame.elems.%s", name, mangle(srt)), "only slice elements named in modifies are written (arrays of " + srt + ")", goal})
 	}
 	for _, k := range sortedKeys(rst.mapD) {
 		d1, v1 := rst.mapD[k], rst.mapV[k]
@@ -476,7 +484,7 @@ func (e *Engine) frameObligations(f *Frame, c *Contract, entry, rst *State, args
 		}
 		e.sc.Decl("const:"+v0, fmt.Sprintf("(declare-const %s %s)", v0, e.mapSorts[k][1]))
 		goal := fmt.Sprintf("(forall ((%s Int)) (=> %s (and (= (select %s %s) (select %s %s)) (= (select %s %s) (select %s %s)))))", q, sAnd(excl...), d1, q, d0, q, v1, q, v0, q)
-		e.obNamed(fmt.Sprintf("%s.frame.map.%s", name, k), "frame", "only maps named in modifies are written", rst.cond, goal, fn.Pos())
+		out = append(out, [3]string{fmt.Sprintf("%s.frame.map.%s", name, k), "only maps named in modifies are written", goal})
 	}
 	var gl []string
 	for g, v := range rst.globals {
@@ -494,7 +502,7 @@ func (e *Engine) frameObligations(f *Frame, c *Contract, entry, rst *State, args
 	}
 	sort.Strings(gl)
 	for _, g := range gl {
-		e.obNamed(fmt.Sprintf("%s.frame.global.%s", name, g), "frame", "package variable "+g+" is written but not named in modifies", rst.cond, "false", fn.Pos())
+		out = append(out, [3]string{fmt.Sprintf("%s.frame.global.%s", name, g), "package variable " + g + " is written but not named in modifies", "false"})
 	}
 	for _, g := range sortedKeys(rst.ghost) {
 		if strings.HasPrefix(g, "sb.") || strings.HasPrefix(g, "once.") {
@@ -502,9 +510,10 @@ func (e *Engine) frameObligations(f *Frame, c *Contract, entry, rst *State, args
 		}
 		g0, _ := e.getGhost(entry, g)
 		if rst.ghost[g] != g0 && !ghostMod[g] {
-			e.obNamed(fmt.Sprintf("%s.frame.ghost.%s", name, g), "frame", "ghost variable "+g+" is updated but not named in modifies", rst.cond, sEq(rst.ghost[g], g0), fn.Pos())
+			out = append(out, [3]string{fmt.Sprintf("%s.frame.ghost.%s", name, g), "ghost variable " + g + " is updated but not named in modifies", sEq(rst.ghost[g], g0)})
 		}
 	}
+	return out
 }
 
 // ---- lemmas
